@@ -5,6 +5,8 @@
 //
 // One line of <cases.txt> = one execution (forked child):
 //   <id> reuse=<0|1> rt=<ms> idle=<0|1> conc=<0|1> | <METHOD> <budget> <pre> <step>;<step>;... | <METHOD> ...
+// bo=<n> (default 1): the back-off of the retry loop (std::this_thread::sleep_for -> nanosleep on the calling thread, 100*2^a ms
+// + jitter) is divided by n through the interposed nanosleep(): large budgets (.. 8) stay affordable in real time.
 // <pre> = 1: sleep longer than connectionIdleTimeout (1 s in such executions) before the request.
 // A <step> is what happens to the k-th *server-visible* attempt of that logical request (an attempt is visible when it
 // calls connect() or when its request bytes arrive on a kept-alive connection):   kind[:variant][@pos]
@@ -105,6 +107,7 @@ struct CaseSpec
 {
   std::string id;
   int reuse = 1, rt = 400, idle = 0, conc = 0, ct = 200;
+  int bo = 1; // back-off divisor: the retry loop's sleeps on the calling thread are shortened by this factor
   std::vector<ReqSpec> reqs;
 };
 
@@ -143,6 +146,7 @@ static CaseSpec parseCase(const std::string &line)
     if (kv[0] == "rt") c.rt = v;
     if (kv[0] == "idle") c.idle = v;
     if (kv[0] == "conc") c.conc = v;
+    if (kv[0] == "bo" && v >= 1) c.bo = v;
   }
   for (size_t i = 1; i < parts.size(); ++i)
   {
@@ -175,6 +179,12 @@ static std::atomic<bool> g_on{false};
 static int g_serverPort = 0, g_deadPort = 0, g_bhPort = 0;
 static std::atomic<int> g_curReq{0};
 static std::map<int, int> g_vis;  // logical request -> server-visible attempts so far
+static std::atomic<int> g_runaway{0}; // logical request whose visible attempts exceeded budget + 3 (never-ending retry loop)
+static void noteAttempt(int r, int k) // g_mx held
+{
+  extern int budgetOf(int r);
+  if (r > 0 && k > budgetOf(r) + 3) g_runaway.store(r);
+}
 static int g_nextCid = 0;
 struct PortInfo
 {
@@ -192,6 +202,8 @@ static std::map<int, double> g_mark;          // logical request -> latest clien
 static std::map<int, long long> g_clientRecv; // connection -> bytes the client's engine has recv()'d on it
 static thread_local bool t_isServer = false;  // the scripted server's own recv() calls are not counted
 static double g_markAny = 0;
+
+int budgetOf(int r) { return (r >= 1 && r <= (int)g_case.reqs.size()) ? g_case.reqs[r - 1].budget : 1000000; }
 
 static const Step *lookupStep(int r, int k)
 {
@@ -237,6 +249,7 @@ extern "C" int connect(int fd, const struct sockaddr *addr, socklen_t len)
     if (r > 0)
     {
       k = ++g_vis[r];
+      noteAttempt(r, k);
       st = lookupStep(r, k);
     }
     if (st && st->kind == "refused") mode = 1;
@@ -311,6 +324,35 @@ extern "C" ssize_t send(int fd, const void *buf, size_t n, int flags)
   }
   errno = ECONNRESET;
   return -1;
+}
+
+// the retry loop's back-off: sleeps of the CALLING thread inside performRequest are divided by the case's bo
+static thread_local int t_sleepDiv = 1;
+typedef int (*nanosleep_fn)(const struct timespec *, struct timespec *);
+typedef int (*clock_nanosleep_fn)(clockid_t, int, const struct timespec *, struct timespec *);
+extern "C" int nanosleep(const struct timespec *req, struct timespec *rem)
+{
+  static nanosleep_fn real = (nanosleep_fn)dlsym(RTLD_NEXT, "nanosleep");
+  if (t_sleepDiv <= 1 || !req) return real(req, rem);
+  long long ns = ((long long)req->tv_sec * 1000000000LL + req->tv_nsec) / t_sleepDiv;
+  struct timespec ts;
+  ts.tv_sec = (time_t)(ns / 1000000000LL);
+  ts.tv_nsec = (long)(ns % 1000000000LL);
+  int rc = real(&ts, nullptr);
+  if (rem) rem->tv_sec = 0, rem->tv_nsec = 0;
+  return rc;
+}
+extern "C" int clock_nanosleep(clockid_t clk, int flags, const struct timespec *req, struct timespec *rem)
+{
+  static clock_nanosleep_fn real = (clock_nanosleep_fn)dlsym(RTLD_NEXT, "clock_nanosleep");
+  if (t_sleepDiv <= 1 || !req || (flags & TIMER_ABSTIME)) return real(clk, flags, req, rem);
+  long long ns = ((long long)req->tv_sec * 1000000000LL + req->tv_nsec) / t_sleepDiv;
+  struct timespec ts;
+  ts.tv_sec = (time_t)(ns / 1000000000LL);
+  ts.tv_nsec = (long)(ns % 1000000000LL);
+  int rc = real(clk, flags, &ts, nullptr);
+  if (rem) rem->tv_sec = 0, rem->tv_nsec = 0;
+  return rc;
 }
 
 // counts what the client's engine has actually read per connection (lets the server / the driver wait until bytes they
@@ -656,6 +698,7 @@ static void selectStep(SConn &c, int r)
 {
   std::lock_guard<std::mutex> g(g_mx);
   int k = ++g_vis[r];
+  noteAttempt(r, k);
   const Step *st = lookupStep(r, k);
   c.step = st ? *st : Step{"ok", "", ""};
   // connect-level / accept-level / client-side kinds mean nothing for a request that arrives on an open connection
@@ -956,7 +999,7 @@ static double hardBound(const ReqSpec &rq)
   double per = (g_case.ct + 2.0 * g_case.rt) / 1000.0;
   double back = 0;
   for (int a = 0; a < rq.budget; ++a) back += ((1 << a) * 100 + 100) / 1000.0;
-  return (rq.budget + 1) * per + back;
+  return (rq.budget + 1) * per + back / g_case.bo;
 }
 
 static void doRequest(HttpClient &client, int r)
@@ -980,6 +1023,11 @@ static void doRequest(HttpClient &client, int r)
   g_inCall[r].store(1);
   try
   {
+    struct Div
+    {
+      Div(int d) { t_sleepDiv = d; }
+      ~Div() { t_sleepDiv = 1; }
+    } div(g_case.bo);
     auto resp = (client.*rob::performFn())(rq.method, url, body, hdr, rq.budget);
     status = resp.statusCode;
     auto it = resp.headers.find("X-Resp");
@@ -1056,7 +1104,7 @@ static std::string runCase(const CaseSpec &cs)
   if (g_listenFd < 0 || g_serverPort == 0) return "{\"e\":\"HarnessError\",\"what\":\"listen\"}\n";
   fcntl(g_listenFd, F_SETFL, fcntl(g_listenFd, F_GETFL, 0) | O_NONBLOCK);
   g_t0 = vf::nowSec();
-  g_trace.add(ev("Begin").str("x", cs.id).i("reuse", cs.reuse).i("ct", cs.ct).i("rt", cs.rt).i("conc", cs.conc));
+  g_trace.add(ev("Begin").str("x", cs.id).i("reuse", cs.reuse).i("ct", cs.ct).i("rt", cs.rt).i("conc", cs.conc).i("bo", cs.bo));
   for (int i = 0; i < 8; ++i) g_inCall[i].store(0);
   g_on.store(true);
   std::thread *serverP = new std::thread(serverLoop);
@@ -1115,6 +1163,22 @@ static std::string runCase(const CaseSpec &cs)
         g_inCall[r].store(0);
         hung = true;
       }
+    int ra = g_runaway.load();
+    // (only a short cut for methods whose attempts the statement bounds; any other never-ending call runs into the time
+    // bound below and is reported as hung)
+    auto bounded = [&](int r)
+    {
+      const std::string &m = cs.reqs[r - 1].method;
+      return m == "GET" || m == "HEAD" || m == "PUT" || m == "DELETE" || m == "OPTIONS" || m == "TRACE";
+    };
+    if (!hung && ra > 0 && ra < 8 && ra <= (int)cs.reqs.size() && bounded(ra) && g_inCall[ra].load())
+    {
+      // a retry loop that does not end: more than budget + 3 observed attempts and the call still runs.  The attempts are
+      // in the trace (AttemptBound judges them); stop here instead of waiting for the time bound
+      g_trace.add(ev("Ret").i("r", ra).str("res", "runaway").i("st", 0).i("ms", (long long)((now - g_callStart[ra].load()) * 1000)).i("rt", 0));
+      g_inCall[ra].store(0);
+      hung = true;
+    }
     if (hung) break;
   }
   if (hung)
